@@ -97,6 +97,9 @@ pub struct MtWorld {
     late_injections: Vec<(i32, i32)>,
     last_wait_pid: i32,
     pub injections_in_op: u32,
+    /// signal-delivery-stops the debugger got from its own waitpid(-1) during the current
+    /// operation (as opposed to signals it reports out of its injection queue)
+    pub fresh_delivery_in_op: Vec<(i32, i32)>,
     /// (thread idx, sig) whose delivery-stop was consumed by a wait for one specific task (group stop)
     seen_in_group_stop: Vec<(usize, i32)>,
     /// (thread idx, sig) whose accounting is tainted by a discarded delivery-stop
@@ -447,6 +450,9 @@ impl World for MtWorld {
                 self.observed.push((ret, sig));
                 let n = self.name(ret);
                 let gs = self.last_wait_pid > 0;
+                if !gs {
+                    self.fresh_delivery_in_op.push((ret, sig));
+                }
                 if let (Some(i), true) = (self.idx_of(ret), gs) {
                     self.seen_in_group_stop.push((i, sig));
                     bump(&mut self.stats, "c10.delivery_stop_seen_during_group_stop");
@@ -836,7 +842,11 @@ impl Driver {
                     if QUIET.contains(&sig) {
                         // known mechanism: resume() injects the head of its queue and reports
                         // the next queued signal as a stop, whatever its kind
-                        let inv = if w.injections_in_op > 0 { "quiet_signal_reported_when_queued_behind_another" } else { "quiet_signal_reported" };
+                        // (the head's injection is not always visible: its thread may be gone.
+                        // What identifies the mechanism is that the reported signal was not
+                        // taken from a delivery-stop of this operation but from the queue.)
+                        let from_queue = w.injections_in_op > 0 || !w.fresh_delivery_in_op.contains(&(tid, sig));
+                        let inv = if from_queue { "quiet_signal_reported_when_queued_behind_another" } else { "quiet_signal_reported" };
                         w.violate("C10", inv, format!("quiet signal {sig} surfaced as a stop of {}", w.name(tid)));
                     }
                     match idx.and_then(|i| w.sent.iter().position(|x| x.idx == i && x.sig == sig && x.reported == 0)) {
@@ -846,7 +856,12 @@ impl Driver {
                         }
                         None => {
                             let whose: Vec<String> = w.sent.iter().filter(|x| x.sig == sig).map(|x| format!("T{}x{}", x.idx, x.reported)).collect();
-                            let inv = if w.sent.iter().any(|x| Some(x.idx) == idx && x.sig == sig) { "signal_reported_twice" } else if whose.is_empty() { "signal_report_without_signal" } else { "signal_reported_for_wrong_thread" };
+                            // known mechanism (KF-C10-4): a signal already reported when its
+                            // delivery-stop was seen is reported again, out of the injection
+                            // queue, when a resume finds it behind the queue's head
+                            let from_queue = !w.fresh_delivery_in_op.contains(&(tid, sig));
+                            let again = w.sent.iter().any(|x| Some(x.idx) == idx && x.sig == sig);
+                            let inv = if again && from_queue { "signal_reported_again_from_injection_queue" } else if again { "signal_reported_twice" } else if whose.is_empty() { "signal_report_without_signal" } else { "signal_reported_for_wrong_thread" };
                             w.violate("C10", inv, format!("SignalStop({}, {sig}) does not match an unreported sent signal (sent {sig}: {whose:?})", w.name(tid)));
                         }
                     }
@@ -985,6 +1000,7 @@ pub fn run(spec: &WorkerSpec) -> WorkerResult {
         late_injections: vec![],
         last_wait_pid: 0,
         injections_in_op: 0,
+        fresh_delivery_in_op: vec![],
         seen_in_group_stop: vec![],
         tainted: vec![],
         tainted_threads: BTreeSet::new(),
@@ -1027,6 +1043,7 @@ pub fn run(spec: &WorkerSpec) -> WorkerResult {
         w(|w| {
             w.step = ops;
             w.injections_in_op = 0;
+            w.fresh_delivery_in_op.clear();
         });
         let ev0 = d.events.0.borrow().len();
         let mut dbg = d.dbg.take().unwrap();
@@ -1272,6 +1289,7 @@ pub fn run(spec: &WorkerSpec) -> WorkerResult {
         w(|w| {
             w.step = ops;
             w.injections_in_op = 0;
+            w.fresh_delivery_in_op.clear();
         });
         let ev0 = d.events.0.borrow().len();
         let mut dbg = d.dbg.take().unwrap();
